@@ -219,6 +219,9 @@ func runC08(c *fw.Ctx) {
 			c.Eval(1)
 			var err error
 			w, err = openWorld("")
+			if w != nil {
+				w.solo = true
+			}
 			if err != nil {
 				c.Inconclusive("open engine: " + err.Error())
 				return
